@@ -209,7 +209,7 @@ def cases(tier, seed):
                             ql = [1]
                         for k in REFERRERS:
                             for t in targets:
-                                yield {"setup": setup, "collision": collision, "nested": nested, "clip": clip, "ids": ids, "first": [k, t], "lens": ql if tier == "quick" else (lens if not (nested and clip and ids) else [1, 2])}
+                                yield {"setup": setup, "collision": collision, "nested": nested, "clip": clip, "ids": ids, "first": [k, t], "lens": ql if tier == "quick" else (lens if (collision in ("none", "grad:g_0") and not ids) else [1, 2])}
 
 
 def drop_cases(tier):
